@@ -3,10 +3,10 @@
    molecules with atoms, adjacency of bond references, cache = list of (key, snapshot of the view it was computed from),
    _changed, _backup).  W = the world invariant: every live molecule and every transaction backup is well formed and
    cache-coherent, and no bond object belongs to two of them.  ops_ok = the contract of a history: attribute setters only
-   inside a transaction.  transaction_atomic is _partial: the block may not contain union, nested enter/exit or a swap. *)
+   inside a transaction. *)
 From Coq Require Import ZArith List Bool.
 From Model Require Import PyBase Cache.
-From Proofs Require Import CacheProofs CacheWf CacheCopy CacheCoh CacheWorld CacheUnion CacheTheorems CacheUsable CacheExamples.
+From Proofs Require Import CacheProofs CacheWf CacheCopy CacheCoh CacheWorld CacheUnion CacheTheorems CacheUsable CacheExamples CacheTxn.
 Import ListNotations.
 Open Scope Z_scope.
 
@@ -73,9 +73,12 @@ Proof. exact edits_leave_others_alone. Qed.
 Print Assumptions C13_edits_leave_others_alone.
 
 (* exit_exn . ops . enter restores atoms (with stored hydrogens and labels), bonds, name, meta, _changed, clears _backup,
-   keeps the ring-family / component entries of the cache, and the result satisfies the invariant again *)
-Theorem C13_transaction_atomic_partial : forall s ops, W s -> snd (step s OEnter) = None ->
-  ops_ok (fst (step s OEnter)) ops -> body_ops ops = true ->
+   keeps the ring-family / component entries of the cache, and the result satisfies the invariant again.  ops: ANY operations
+   (edits, reads, setters, copy, substructure, union in place and copying, renumbering, the patch step) except swap (not a
+   library operation) and a nested enter / exit of the same molecule, for which the statement is false: see
+   transaction_nested_refuted (known finding nested-transaction-no-rollback) *)
+Theorem C13_transaction_atomic : forall s ops, W s -> snd (step s OEnter) = None ->
+  ops_ok (fst (step s OEnter)) ops -> block_ops ops = true ->
   let s3 := fst (step (run ops (fst (step s OEnter))) OExitExn) in
   snd (step (run ops (fst (step s OEnter))) OExitExn) = None /\
   view_of (s_heap s3) (s_cur s3) = view_of (s_heap s) (s_cur s) /\
@@ -83,8 +86,27 @@ Theorem C13_transaction_atomic_partial : forall s ops, W s -> snd (step s OEnter
   o_changed (s_cur s3) = o_changed (s_cur s) /\ o_backup (s_cur s3) = None /\
   o_cache (s_cur s3) = filter (kept true true) (o_cache (s_cur s)) /\
   W s3.
-Proof. exact transaction_atomic. Qed.
-Print Assumptions C13_transaction_atomic_partial.
+Proof. exact transaction_atomic_full. Qed.
+Print Assumptions C13_transaction_atomic.
+
+Theorem C13_transaction_full_example :
+  let s := run build_cco empty_state in
+  W s /\ snd (step s OEnter) = None /\ ops_ok (fst (step s OEnter)) txn_body_full /\ block_ops txn_body_full = true /\
+  trace txn_body_full (fst (step s OEnter)) = repeat None 8 /\
+  keys (o_atoms (s_cur (run txn_body_full (fst (step s OEnter))))) = [11; 2; 3; 4; 5; 7; 8; 9].
+Proof. exact transaction_full_example. Qed.
+Print Assumptions C13_transaction_full_example.
+
+Theorem C13_transaction_nested_refuted :
+  let s := run build_cco empty_state in
+  let ops := [OEnter; OAddAtom nitrogen None; OExitOk] in
+  W s /\ snd (step s OEnter) = None /\ ops_ok (fst (step s OEnter)) ops /\
+  trace ops (fst (step s OEnter)) = [None; None; None] /\
+  snd (step (run ops (fst (step s OEnter))) OExitExn) = Some AttributeError /\
+  keys (o_atoms (s_cur (fst (step (run ops (fst (step s OEnter))) OExitExn)))) = [1; 2; 3; 4] /\
+  keys (o_atoms (s_cur s)) = [1; 2; 3].
+Proof. exact transaction_nested_refuted. Qed.
+Print Assumptions C13_transaction_nested_refuted.
 
 (* a usable state: outside a transaction the next edit (a new atom, followed by fix_structure over the whole molecule or the
    pending atoms) raises nothing; with the invariant re-established by transaction_atomic / copy_independent this covers the
